@@ -21,21 +21,16 @@ theorem sharded_lawful (shardOf : Nat → Nat) : (shardedImpl shardOf).Lawful :=
     · simp [h]
   · intro r t; rfl
 
-/-! ### refinement helpers -/
+/-! ### refinement helpers (kept in their own namespace: all the Proofs files are imported together) -/
 
+namespace Refine
 section refine
 variable {R : Type} (I : RegImpl R) (cfg : Config)
 variable (rec : Frame → St R → Action → St R) (rec' : Frame → St (Nat → List Reg) → Action → St (Nat → List Reg))
 
-@[simp] theorem absSt_c (s : St R) : (absSt I s).c = s.c := rfl
-
-@[simp] theorem absSt_reg (s : St R) (t : Nat) : (absSt I s).reg t = I.get s.reg t := rfl
+theorem absSt_c (s : St R) : (absSt I s).c = s.c := rfl
 
 theorem absSt_withc (s : St R) (c : Core) : absSt I { s with c := c } = { absSt I s with c := c } := rfl
-
-theorem absSt_ite (b : Prop) [Decidable b] (x y : St R) :
-    absSt I (if b then x else y) = if b then absSt I x else absSt I y := by
-  split <;> rfl
 
 theorem absSt_set (hI : I.Lawful) (s : St R) (ty : Nat) (l : List Reg) (c : Core) :
     absSt I { reg := I.set s.reg ty l, c := c } =
@@ -190,26 +185,38 @@ theorem step_refines (hI : I.Lawful) (h : RecRel I rec rec') :
   | clearAll =>
     simp only [step, absSt_clearAll I hI]; rfl
   | publish ty v bad sel =>
-    simp only [step, absSt_c]
-    split
-    · rfl
-    · exact publish_refines I cfg rec rec' hI h ..
-  | cancel => simp only [step]; split <;> rfl
-  | cancelId k => simp only [step, absSt_c]; split <;> rfl
-  | panic val => simp only [step]; split <;> rfl
+    by_cases hc : cfg.maxDepth ≤ fr.depth ∨ cfg.maxCalls ≤ s.c.calls
+    · simp only [step, absSt_c, hc, if_true]; rfl
+    · simp only [step, absSt_c, hc, if_false]
+      exact publish_refines I cfg rec rec' hI h ..
+  | cancel =>
+    by_cases hc : fr.root = 0
+    · simp only [step, hc, if_true]
+    · simp only [step, hc, if_false]; rfl
+  | cancelId k =>
+    by_cases hc : k = 0 ∨ s.c.nextCtx ≤ k
+    · simp only [step, absSt_c, hc, if_true]
+    · simp only [step, absSt_c, hc, if_false]; rfl
+  | panic val =>
+    by_cases hc : fr.depth = 0
+    · simp only [step, hc, if_true]
+    · simp only [step, hc, if_false]; rfl
   | has ty => rfl
   | count ty => rfl
   | readLog => rfl
   | drain =>
-    simp only [step, absSt_c]
-    split
-    · rfl
-    · split
-      · rfl
-      · rw [h, runPending_refines I cfg rec rec' h]; rfl
+    by_cases hc : fr.depth = 0
+    · cases hp : s.c.pending with
+      | nil => simp only [step, absSt_c, hc, hp, ne_eq, not_true, if_false]
+      | cons p ps =>
+        simp only [step, absSt_c, hc, hp, ne_eq, not_true, if_false]
+        rw [h, runPending_refines I cfg rec rec' h]; rfl
+    · simp only [step, hc, ne_eq, not_false_eq_true, if_true]
 
 end refine
+end Refine
 
+open Refine in
 /-- one step of the machine commutes with the abstraction, for every lawful registry -/
 theorem exec_refines {R : Type} (I : RegImpl R) (hI : I.Lawful) (cfg : Config) (n : Nat)
     (fr : Frame) (s : St R) (a : Action) :
@@ -223,6 +230,7 @@ theorem exec_refines {R : Type} (I : RegImpl R) (hI : I.Lawful) (cfg : Config) (
       exact step_refines I cfg _ _ hI ih fr s a
   exact key n fr s a
 
+open Refine in
 theorem run_refines {R : Type} (I : RegImpl R) (hI : I.Lawful) (cfg : Config) (fuel : Nat)
     (faults : List Bool) (prog : List Action) :
     absSt I (run I cfg fuel faults prog) = run flatImpl cfg fuel faults prog := by
@@ -256,7 +264,7 @@ theorem subscribe_spec {R : Type} (I : RegImpl R) (hI : I.Lawful) (cfg : Config)
   · intro t ht
     simp [s', step, hI.get_set, ht]
 
-theorem eraseFirst_split (p : Reg → Bool) : ∀ (l : List Reg), l.any p = true →
+theorem Refine.eraseFirst_split (p : Reg → Bool) : ∀ (l : List Reg), l.any p = true →
     ∃ pre h post, l = pre ++ h :: post ∧ p h = true ∧ (∀ x ∈ pre, p x = false) ∧
       eraseFirst p l = pre ++ post
   | [], h => by simp at h
@@ -268,7 +276,7 @@ theorem eraseFirst_split (p : Reg → Bool) : ∀ (l : List Reg), l.any p = true
         rcases h with h | h
         · exact absurd h hr
         · exact h
-      obtain ⟨pre, x, post, h1, h2, h3, h4⟩ := eraseFirst_split p rs h'
+      obtain ⟨pre, x, post, h1, h2, h3, h4⟩ := Refine.eraseFirst_split p rs h'
       refine ⟨r :: pre, x, post, by simp [h1], h2, ?_, by simp [eraseFirst, hr, h4]⟩
       intro y hy
       rcases List.mem_cons.1 hy with rfl | hy
@@ -294,7 +302,7 @@ theorem unsubscribe_spec {R : Type} (I : RegImpl R) (hI : I.Lawful) (cfg : Confi
     refine ⟨?_, Or.inl ?_⟩
     · intro t ht
       simp [hs', hI.get_set, ht]
-    · obtain ⟨pre, h, post, h1, h2, h3, h4⟩ := eraseFirst_split _ _ hany
+    · obtain ⟨pre, h, post, h1, h2, h3, h4⟩ := Refine.eraseFirst_split _ _ hany
       refine ⟨pre, h, post, h1, by simpa using h2, ?_, ?_, ?_⟩
       · intro x hx
         simpa using h3 x hx
